@@ -9,7 +9,6 @@ import (
 	storetypes "github.com/cosmos/cosmos-sdk/store/v2/types"
 	sdk "github.com/cosmos/cosmos-sdk/types"
 
-	commitmenttypesv2 "github.com/cosmos/ibc-go/v11/modules/core/23-commitment/types/v2"
 	"github.com/cosmos/ibc-go/v11/modules/core/exported"
 )
 
@@ -42,11 +41,9 @@ func (cs ClientState) verifyMisbehaviour(cdc codec.BinaryCodec, misbehaviour *Mi
 // over the provided data and that the data is valid. The data is valid if it can be
 // unmarshaled into the specified data type.
 func (cs ClientState) verifySignatureAndData(cdc codec.BinaryCodec, misbehaviour *Misbehaviour, sigAndData *SignatureAndData) error {
-	// do not check misbehaviour timestamp since we want to allow processing of past misbehaviour
-	if err := cdc.Unmarshal(sigAndData.Path, new(commitmenttypesv2.MerklePath)); err != nil {
-		return err
-	}
-
+	// do not check misbehaviour timestamp since we want to allow processing of past misbehaviour.
+	// The path is opaque here: it only has to be the path that was signed (membership proofs sign the
+	// raw ICS-24 key, header updates sign the sentinel header path).
 	signBytes := SignBytes{
 		Sequence:    misbehaviour.Sequence,
 		Timestamp:   sigAndData.Timestamp,
